@@ -290,6 +290,7 @@ func (s *IndexedState) Add(ctx *Context, id string, x Map) (string, error) {
 	}
 	d := Pair{[]byte(id), js}
 
+	verifPoint("IndexedState.Add.beforeStore")
 	err = s.Store.Add(ctx, s.Name, &d)
 	s.sunlock(ctx, false)
 	if err != nil {
